@@ -49,12 +49,13 @@ type Item struct {
 }
 
 type Typedef struct {
-	Name    string
-	Type    *TypeRef
-	Units   string
-	Default string
-	HasDef  bool
-	Scope   *Scope // scope it is defined in
+	UnitsSet bool // a units statement is written (possibly with an empty argument)
+	Name     string
+	Type     *TypeRef
+	Units    string
+	Default  string
+	HasDef   bool
+	Scope    *Scope // scope it is defined in
 }
 
 type Grouping struct {
@@ -240,7 +241,7 @@ func (p *printer) scope(s *Scope) {
 		p.line("typedef %s {", td.Name)
 		p.ind++
 		p.typ(td.Type)
-		if td.Units != "" {
+		if td.Units != "" || td.UnitsSet {
 			p.line("units %q;", td.Units)
 		}
 		if td.HasDef {
@@ -337,9 +338,9 @@ type TSum struct {
 
 type X struct {
 	IfF        []string // expected Extra["if-feature"]: the node's own, then those of every uses and augment that placed it as one of their top-level nodes
-	ViaUses    bool // placed (directly or through an ancestor) by a uses expansion
-	ViaAugment bool // placed (directly or through an ancestor) by an augment
-	DefFile    *Mod // file whose text defines the node
+	ViaUses    bool     // placed (directly or through an ancestor) by a uses expansion
+	ViaAugment bool     // placed (directly or through an ancestor) by an augment
+	DefFile    *Mod     // file whose text defines the node
 	T          *TSum
 	Name       string
 	Kind       string
@@ -599,7 +600,7 @@ func (r *Resolver) ResolveType(t *TypeRef, depth int) *TSum {
 		c := *b
 		c.Patterns = append([]string{}, b.Patterns...)
 		c.Posix = append([]string{}, b.Posix...)
-		if td.Units != "" {
+		if td.Units != "" || td.UnitsSet {
 			c.Units = td.Units
 		}
 		if td.HasDef {
